@@ -357,7 +357,12 @@ def gen_module(draw):
         return "\n".join(pro) + ("\n" if pro and draw(st.booleans()) else ""), {"funcs": [], "shape": shape}
     state = {"n": 0, "funcs": []}
     body = draw(gen_block(0, ind, state))
-    lines = pro + ([""] if draw(st.booleans()) else []) + PRELUDE + body
+    # the module may import jaxtyping itself -- before its defs, between them and the tail (a late import to dodge a cycle), aliased
+    own = draw(st.sampled_from([None, None, "late", "early", "late-alias", "early-from", None]))
+    own_early = {"early": ["import jaxtyping"], "early-from": ["from jaxtyping import Float"]}.get(own, [])
+    own_late = {"late": ["import jaxtyping"], "late-alias": ["import jaxtyping as jt"]}.get(own, [])
+    lines = pro + ([""] if draw(st.booleans()) else []) + own_early + PRELUDE + body + own_late
+    state["own_import"] = own
     tail = ["", "def boom():", f"{ind}def inner():", f"{ind}{ind}raise RuntimeError('boom')", f"{ind}return inner()"]
     src = "\n".join(lines + tail) + draw(st.sampled_from(["\n", "", "\n\n"]))
     state["shape"] = shape
@@ -444,7 +449,7 @@ def run(ctx):
         ctx.extra["programs"] = ctx.extra.get("programs", 0) + 1
         ctx.extra["disagreements_checked"] = ctx.extra.get("disagreements_checked", 0) + checked
         ctx.note(source, ndefs >= 1 and (feats["decorated"] or feats["nested"] or feats["prologue"]),
-                 classes=["generated", f"prologue-{state.get('shape')}"] + ([f"encoding-{encoding}"] if encoding else []) + [f"feat-{k}" for k, v in feats.items() if v],
+                 classes=["generated", f"prologue-{state.get('shape')}"] + ([f"own-jaxtyping-import-{state.get('own_import')}"] if state.get("own_import") else []) + ([f"encoding-{encoding}"] if encoding else []) + [f"feat-{k}" for k, v in feats.items() if v],
                  sample={"source": source, "additions_verified": checked})
 
     ctx.hyp(generated, max_examples=ctx.n(250, 2500))
